@@ -954,6 +954,10 @@ func (p *Printer) arithmExprRecurse(expr ArithmExpr, compact, spacePlusMinus boo
 		if compact {
 			p.arithmExprRecurse(expr.X, compact, spacePlusMinus)
 			p.w.WriteString(expr.Op.String())
+			if (expr.Op == Add || expr.Op == Sub) && arithmStartsWithSign(expr.Y) {
+				// "x - -y" must not become "x--y", nor "x + ++y" "x+++y"
+				p.space()
+			}
 			p.arithmExprRecurse(expr.Y, compact, false)
 		} else {
 			p.arithmExprRecurse(expr.X, compact, spacePlusMinus)
@@ -980,6 +984,9 @@ func (p *Printer) arithmExprRecurse(expr ArithmExpr, compact, spacePlusMinus boo
 				// "!" followed by a word triggers history expansion
 				// in interactive shells; a space prevents that.
 				p.space()
+			} else if (expr.Op == Plus || expr.Op == Minus) && arithmStartsWithSign(expr.X) {
+				// "- -x" must not become the pre-decrement "--x"
+				p.space()
 			}
 			p.arithmExprRecurse(expr.X, compact, false)
 		}
@@ -995,6 +1002,24 @@ func (p *Printer) arithmExprRecurse(expr ArithmExpr, compact, spacePlusMinus boo
 			p.arithmExprRecurse(expr.X, compact, false)
 		}
 	}
+}
+
+// arithmStartsWithSign reports whether the printed form of expr begins with
+// a plus or minus character, which would fuse with a preceding one.
+func arithmStartsWithSign(expr ArithmExpr) bool {
+	switch expr := expr.(type) {
+	case *UnaryArithm:
+		if expr.Post {
+			return arithmStartsWithSign(expr.X)
+		}
+		switch expr.Op {
+		case Plus, Minus, Inc, Dec:
+			return true
+		}
+	case *BinaryArithm:
+		return arithmStartsWithSign(expr.X)
+	}
+	return false
 }
 
 func (p *Printer) testExpr(expr TestExpr) {
